@@ -562,6 +562,22 @@ def r7(ctx, facts):
                    "it is reached through %s%s" % (which or "all|per_dc", sorted(n.split("::")[-1] for n in names), "" if in_loop else " and not in a loop"), span)
         if which:
             seen_lists.add(which)
+    # the per-DC lists may also be REBUILT from the (already refreshed) full list: a whole store into `per_dc` of a map that was
+    # filled, in a loop, with elements taken from `all` - the form that also follows a node into a new datacenter
+    for body in fam:
+        for bb in sorted(body.live_blocks):
+            for st in body.stmts(bb):
+                if st[0] == "A" and st[1][1] and isinstance(st[1][1][-1], list) and st[1][1][-1][0] == "f" and st[1][1][-1][2] == "per_dc" \
+                        and st[2][0] == "use" and st[2][1][0] in ("c", "m"):
+                    newmap = st[2][1][1][0]
+                    for bb2, c2 in body.calls():
+                        if bb2 not in body.live_blocks or (c2.decl or c2.name or "").split("::")[-1] not in ("push", "insert", "extend", "or_insert_with", "or_insert") or len(c2.args) < 2:
+                            continue
+                        recv = backward_slice(body, c2.args[0])[0] | ({c2.args[0][1][0]} if c2.args[0][0] in ("c", "m") else set())
+                        fed_from_all = any("all" in slice_fields(body, a) for a in c2.args[1:])
+                        looped = any(bb2 in body.reachable_from(x) for x in body.succ[bb2])
+                        if newmap in recv and fed_from_all and looped:
+                            seen_lists.add("per_dc")
     r.instance("both-lists-refreshed", seen_lists == {"all", "per_dc"},
                "update_stale_nodes must overwrite stale nodes in replicas.all and in replicas.per_dc; found stores into %s" % sorted(seen_lists), b.span)
 
@@ -780,6 +796,44 @@ def r12(ctx, facts):
                "from_raw_replicas no longer builds its (node, shard) pairs in the closure that translates a raw entry (%d pair constructions, %d next to the translation)" % (n, translated), b.span)
 
 
+PANICKING = ("core::panicking::panic", "core::panicking::panic_fmt", "core::panicking::assert_failed", "core::panicking::panic_explicit",
+             "core::panicking::unreachable_display", "core::panicking::panic_display", "core::panicking::panic_nounwind")
+
+
+def r13(ctx, facts):
+    """topology maintenance runs inside every metadata refresh: it has to come out with a tablet map for EVERY combination of
+    removed nodes, re-created nodes and unknown replicas (they do occur in one refresh). The maintenance family therefore holds
+    no assertion / unwrap on what a previous step left behind; and when re-created nodes are swapped in, the per-DC lists are
+    rebuilt from the full list (a re-created node may have changed its datacenter), not patched under their old keys."""
+    r = ctx.rule("R13", "tablet maintenance is total (no panic site) and keeps per-DC lists the restriction of the full list when nodes are re-created", floor=3)
+    roots = [facts.one(r"^scylla::routing::locator::tablets::Tablet::update_stale_nodes$"),
+             facts.one(r"^scylla::routing::locator::tablets::Tablet::re_resolve_replicas$"),
+             facts.one(r"^scylla::routing::locator::tablets::TableTablets::perform_maintenance$")]
+    fam = []
+    for b in roots:
+        fam += closure_family(facts, b)
+    for b in fam:
+        sites = []
+        for bb, c in b.calls():
+            nm = c.name or c.decl or ""
+            if bb in b.live_blocks and (nm in PANICKING or nm.split("::")[-1] in ("unwrap", "expect", "unwrap_unchecked") and ("Option" in nm or "Result" in nm)):
+                sites.append((nm.split("::")[-1], c.span))
+        for bb in sorted(b.live_blocks):
+            t = b.term(bb)
+            if t[0] == "assert":
+                sites.append(("assert:" + str(t[3]), b.term_span(bb)))
+        r.instance("no-panic-site:" + fn_short(b.path), not sites,
+                   "%s can panic (%s) on a state an earlier maintenance step legitimately produces - e.g. a tablet whose unknown replicas were just resolved against the "
+                   "NEW node objects already holds the re-created node: the refresh dies instead of publishing a tablet map" % (fn_short(b.path), ", ".join(k for k, _ in sites)),
+                   sites[0][1] if sites else b.span)
+    ub = roots[0]
+    inplace = [c for bb, c in ub.calls() if bb in ub.live_blocks and (c.name or c.decl or "").split("::")[-1] in ("values_mut", "iter_mut", "get_mut", "entry")
+               and c.args and "per_dc" in slice_fields(ub, c.args[0])]
+    r.instance("per_dc-rebuilt-not-patched", not inplace,
+               "update_stale_nodes replaces nodes inside the per-DC lists in place (%s): a node re-created because its datacenter changed stays listed under the old "
+               "datacenter and is missing under the new one" % ", ".join(sorted({(c.name or c.decl).split("::")[-1] for c in inplace})), inplace[0].span if inplace else ub.span)
+
+
 def check(ctx):
     facts = inline_view(ctx.facts("default"))
     add = None
@@ -787,7 +841,7 @@ def check(ctx):
         add = r1(ctx, facts)
     except AnchorLost as ex:
         ctx.rule("R1x", "anchors of r1").fail("anchor-lost", str(ex))
-    for fn in ((lambda c, f: r2(c, f, add)) if add else None, r3, r4, r5, r6, r7, r8, r9, r10, r11, r12):
+    for fn in ((lambda c, f: r2(c, f, add)) if add else None, r3, r4, r5, r6, r7, r8, r9, r10, r11, r12, r13):
         if fn is None:
             continue
         try:
